@@ -64,7 +64,7 @@ def validate(module, cfg, executions, reset_record, max_reject=8, workers=1,
             pending = pending[bad + 1:]
         return out
 
-    outs = core.pmap(do_chunk, chunks, workers=parallel or max(1, core.NCPU // max(1, workers) // 2))
+    outs = core.pmap(do_chunk, chunks, workers=parallel or max(1, core.NCPU // max(1, workers) // 2), threads=True)
     for o in outs:
         for kind, v in o:
             if kind == "run":
